@@ -23,7 +23,11 @@ pub struct Instant {
 
 impl Instant {
     pub fn now() -> Instant {
-        Instant { since_origin: model_now() }
+        // inside a (model) runtime: that runtime's paused clock; otherwise the harness-set value
+        match crate::runtime::current_clock() {
+            Some(c) => Instant { since_origin: c },
+            None => Instant { since_origin: model_now() },
+        }
     }
     /// model-only constructor
     pub fn model_at(since_origin: Duration) -> Instant {
@@ -86,20 +90,39 @@ impl Sub<Instant> for Instant {
     }
 }
 
+/// A timer of the current (model) runtime: ready once that runtime's clock has reached the deadline;
+/// a pending poll registers the deadline so that the idle runtime advances exactly to it.
 pub struct Sleep {
-    _p: (),
+    deadline: Duration,
+}
+impl Sleep {
+    pub fn deadline(&self) -> Instant {
+        Instant { since_origin: self.deadline }
+    }
+    pub fn is_elapsed(&self) -> bool {
+        Instant::now().since_origin >= self.deadline
+    }
 }
 impl Future for Sleep {
     type Output = ();
     fn poll(self: Pin<&mut Self>, _cx: &mut Context<'_>) -> Poll<()> {
-        unimplemented!("tokio model: sleep needs a runtime")
+        let now = match crate::runtime::current_clock() {
+            Some(c) => c,
+            None => panic!("tokio model: there is no reactor running (sleep polled outside of a runtime)"),
+        };
+        if now >= self.deadline {
+            Poll::Ready(())
+        } else {
+            crate::runtime::register_deadline(self.deadline);
+            Poll::Pending
+        }
     }
 }
-pub fn sleep(_d: Duration) -> Sleep {
-    Sleep { _p: () }
+pub fn sleep(d: Duration) -> Sleep {
+    Sleep { deadline: Instant::now().since_origin + d }
 }
-pub fn sleep_until(_i: Instant) -> Sleep {
-    Sleep { _p: () }
+pub fn sleep_until(i: Instant) -> Sleep {
+    Sleep { deadline: i.since_origin }
 }
 
 pub mod error {
@@ -114,14 +137,22 @@ pub mod error {
 }
 
 pub struct Timeout<F> {
-    _f: F,
+    fut: F,
+    sleep: Sleep,
 }
 impl<F: Future> Future for Timeout<F> {
     type Output = Result<F::Output, error::Elapsed>;
-    fn poll(self: Pin<&mut Self>, _cx: &mut Context<'_>) -> Poll<Self::Output> {
-        unimplemented!("tokio model: timeout needs a runtime")
+    fn poll(self: Pin<&mut Self>, cx: &mut Context<'_>) -> Poll<Self::Output> {
+        let this = unsafe { self.get_unchecked_mut() };
+        if let Poll::Ready(v) = unsafe { Pin::new_unchecked(&mut this.fut) }.poll(cx) {
+            return Poll::Ready(Ok(v));
+        }
+        match Pin::new(&mut this.sleep).poll(cx) {
+            Poll::Ready(()) => Poll::Ready(Err(error::Elapsed(()))),
+            Poll::Pending => Poll::Pending,
+        }
     }
 }
-pub fn timeout<F: Future>(_d: Duration, f: F) -> Timeout<F> {
-    Timeout { _f: f }
+pub fn timeout<F: Future>(d: Duration, f: F) -> Timeout<F> {
+    Timeout { fut: f, sleep: sleep(d) }
 }
